@@ -927,7 +927,7 @@ def _worker(args):
     try:
         for i, (mode, n) in enumerate(jobs):
             sc = _run_one(b, rundir, seed, shard, i, part, mode, n)
-            if sc is not None and shard in (0, 1) and i == 0:
+            if sc is not None and shard in (0, 1, 4) and i == 0:
                 part.sample({"scenario": sc.sid, "mode": mode, "steps": sc.steps[:12]})
     finally:
         shutil.rmtree(rundir, ignore_errors=True)
